@@ -32,6 +32,7 @@ func genPolicy(s *Stream, p *AttemptPlan) {
 	p.ImmediateError = s.Chance(1, 2)
 	p.LogYield = s.Chance(1, 3)
 	p.DebugYield = s.Chance(1, 6)
+	p.ForeignCtx = s.Chance(1, 4)
 }
 
 func pickStart(s *Stream, h *History, atUnitBoundary bool) Pos {
@@ -184,7 +185,8 @@ func genScenarioC08(t *Tape, thorough bool) *Scenario {
 	o := baseOpts()
 	o.MaxUnits = 8
 	o.Prof.ZeroTSPct = 50
-	o.Prof.Kinds = []colKind{kBlob, kVarchar, kChar, kTimestampOld, kTimestamp2, kLong, kDecimal, kBit, kSet, kGeometry, kDatetime2}
+	o.Prof.Kinds = []colKind{kBlob, kVarchar, kChar, kTimestampOld, kTimestamp2, kLong, kDecimal, kBit, kSet, kGeometry, kDatetime2, kYear, kTime2, kDate, kEnum, kDouble}
+	o.Prof.AllowJSON = true
 	cs := t.S("cfg")
 	// packet sizes around the driver's buffer (4096) and, sometimes, its cache limit
 	switch cs.Weighted(2, 4, 1) {
@@ -275,6 +277,12 @@ func invalidPayload(s *Stream, h *History) []byte {
 		// the server-id field of the malformed packet names the replica itself
 		p[5], p[6], p[7], p[8] = byte(h.replicaID), byte(h.replicaID>>8), byte(h.replicaID>>16), byte(h.replicaID>>24)
 	}
+	// whatever the class, the payload must fail the validity predicate
+	if len(p) >= 19 {
+		if l := uint32(p[9]) | uint32(p[10])<<8 | uint32(p[11])<<16 | uint32(p[12])<<24; l == uint32(len(p)) {
+			p[9] ^= 1
+		}
+	}
 	return p
 }
 
@@ -289,6 +297,15 @@ func invalidPayloadRaw(s *Stream, h *History) []byte {
 		}
 	}
 	var p []byte
+	if s.Chance(1, 8) {
+		// surplus bytes in FRONT of a complete event (e.g. a semi-sync header 0xef <flag>)
+		e := pickEvent()
+		pre := s.Bytes(1 + s.N(4))
+		if s.Chance(1, 2) {
+			pre = []byte{0xef, byte(s.N(2))}
+		}
+		return append(pre, e...)
+	}
 	switch s.Weighted(2, 3, 3, 3, 2, 2, 2, 1) {
 	case 0: // empty event
 		p = []byte{}
